@@ -72,6 +72,81 @@ pub fn build(base: &[u8], events: &[Ev], recipe: &Recipe) -> Vec<u8> {
 
 /// Recipes for one cut: subsets of the volatile writes (all of them when few),
 /// plus sector-torn variants of the most recent ones.
+/// Trace monitor for the two-slot allocation journal. From the store's point of view a journal write has
+/// succeeded when neither the write nor the fsync that follows it was reported as failed. The discipline that
+/// makes a torn journal write harmless: generations strictly increase along the successful writes, successive
+/// successful writes alternate between the two slots, and no attempt (successful or not) ever targets the slot
+/// holding the last successful image - tearing it would leave only an older image to fall back on.
+/// `failed_calls` = I/O call indices at which a failure was injected.
+pub fn journal_discipline(events: &[Ev], failed_calls: &[u32]) -> Result<u64, String> {
+    let u64_at = |d: &[u8], o: usize| d.get(o..o + 8).map(|b| u64::from_le_bytes(b.try_into().unwrap())).unwrap_or(0);
+    let mut last_ok: Option<(u64, u64, usize)> = None; // (slot, generation, event index)
+    let mut checked = 0u64;
+    for (i, ev) in events.iter().enumerate() {
+        let Ev::W { off, data, applied, call, .. } = ev else { continue };
+        if crate::mon::classify_write(*off, data) != crate::mon::IoClass::JournalWrite || data.len() < 40 || &data[..8] != b"\0FEOXAJ1" {
+            continue;
+        }
+        let block = off / 4096;
+        let slot = (block - 1) / 3;
+        let generation = u64_at(data, 16);
+        if let Some((pslot, pgen, pi)) = last_ok {
+            checked += 1;
+            if slot == pslot {
+                return Err(format!("journal write #{i} (generation {generation}) targets slot {slot}, which holds the last successfully written journal image (generation {pgen}, event #{pi}): a torn write would leave only an older image"));
+            }
+            if generation <= pgen {
+                return Err(format!("journal write #{i} carries generation {generation}, not above generation {pgen} of the last successfully written image (event #{pi})"));
+            }
+        }
+        // did the store see this write succeed? the write itself and the fsync right after it
+        let write_failed = !*applied || failed_calls.contains(call);
+        let fsync_failed = events[i + 1..].iter().find_map(|e| match e {
+            Ev::Fb { call } => Some(Some(failed_calls.contains(call))),
+            Ev::W { .. } => Some(None), // another write before any fsync: not the journal step's pattern - outcome unknown
+            _ => None,
+        });
+        match (write_failed, fsync_failed) {
+            (false, Some(Some(false))) => last_ok = Some((slot, generation, i)),
+            (true, _) | (false, Some(Some(true))) => {} // the store saw a failure: the previous successful image stays the reference
+            _ => last_ok = None, // unknown outcome (end of trace, unusual pattern): drop the reference rather than guess
+        }
+    }
+    Ok(checked)
+}
+
+/// The device under the strict fsync model: a write becomes durable only through a *successful* fsync that
+/// begins after it; a failed fsync may have dropped the dirty pages it covered (Linux marks them clean and
+/// reports the error once), so those writes are lost for good unless the store writes them again - a later
+/// successful fsync does not bring them back.
+pub fn build_strict(base: &[u8], events: &[Ev], cut: usize) -> Vec<u8> {
+    let mut image = base.to_vec();
+    let mut pending: Vec<usize> = Vec::new();
+    let mut mark = 0usize;
+    for (i, ev) in events.iter().enumerate().take(cut) {
+        match ev {
+            Ev::W { applied: true, .. } => pending.push(i),
+            Ev::W { .. } => {}
+            Ev::Fb { .. } => mark = pending.len(),
+            Ev::Fe { ok } => {
+                let covered: Vec<usize> = pending.drain(..mark.min(pending.len())).collect();
+                mark = 0;
+                if *ok {
+                    for w in covered {
+                        if let Ev::W { off, data, .. } = &events[w] {
+                            let off = *off as usize;
+                            if off + data.len() <= image.len() {
+                                image[off..off + data.len()].copy_from_slice(data);
+                            }
+                        }
+                    }
+                }
+            }
+        }
+    }
+    image
+}
+
 pub fn recipes_for_cut(events: &[Ev], cut: usize, rng: &mut Rng, max_subsets: usize, tears: usize) -> Vec<Recipe> {
     let v = volatile(events, cut);
     let mut out = Vec::new();
